@@ -12,7 +12,7 @@ META = {
                  "iteration on every path, no fall-through, default: skip_item(), length decremented once. R08.2 no case "
                  "reads what another case writes; time-offset resolution is after the loop. R08.3 imports the decoder "
                  "obligations (skip exhaustiveness, stop-code agreement, tag content, widths). R08.4 every read starts "
-                 "from reset state. R08.5 unknown keys cannot alias negative case labels. R08.6 = R07.9 (chunked strings). Reads that only size a reserve() do not make a case order-dependent; the array loop of read_array written out by hand is the same consumption. R08.1 also recognises one loop per length form (counted loop + indefinite loop with the stop-code test first, same body). R08.10 (R07.4 and R07.7 imported for read_int): the argument of every head width is assembled to the value RFC 8949 assigns to its bytes on every path through read_int, and every shift in it stays inside the type of its operand - a wider head of the same value decodes to the same number.",
+                 "from reset state. R08.5 unknown keys cannot alias negative case labels. R08.6 = R07.9 (chunked strings). Reads that only size a reserve() do not make a case order-dependent; the array loop of read_array written out by hand is the same consumption. R08.1 also recognises one loop per length form (counted loop + indefinite loop with the stop-code test first, same body). R08.10 (R07.4 and R07.7 imported for read_int): the argument of every head width is assembled to the value RFC 8949 assigns to its bytes on every path through read_int, and every shift in it stays inside the type of its operand - a wider head of the same value decodes to the same number. R08.11 = R05.7 (read_block ends a definite-length block array where it would end an indefinite one); R08.3 includes R07.13 (skip_item bookkeeping) and the stop-test polarity of R07.2.",
     "explanation": "Sibling cross-check of ~19 readers against one loop discipline, decided on the structured AST for all "
                    "inputs; equality of decoded values across rewrites is not decided.",
     "trusted_base": ["clang 14 AST"],
